@@ -171,7 +171,11 @@ class uamiv(ioapi_base):
                                       var_desc='Ending TFLAG'.ljust(80))
 
         self.SDATE, self.STIME = self.variables['TFLAG'][0, 0, :]
-        self.TSTEP = etflagv[0, 0, 1] - tflagv[0, 0, 1]
+        tstep = etflagv[0, 0, 1] - tflagv[0, 0, 1]
+        if etflagv[0, 0, 0] != tflagv[0, 0, 0]:
+            # the first interval ends on the next day
+            tstep += 240000
+        self.TSTEP = tstep
         if P_ALP is not None:
             self.P_ALP = P_ALP
         if P_BET is not None:
